@@ -199,12 +199,20 @@ def main():
     print(f'[{pid}] tier={tier} instances={len(insts)} jobs={args.jobs} active_regions={active}', flush=True)
 
     def job(i):
+        if any(v in active for v in i.get('vacuous_if', ())):
+            # whole input domain inside an excluded known-finding region (declared by the harness): not run while the finding is open
+            return i, {'name': i['name'], 'status': 'excluded', 'wall_s': 0.0}
         spec = {'name': i['name'], 'module': i['module'], 'factory': i['factory'], 'params': i.get('params', {}),
                 'timeout': i.get('timeout', 120) * args.scale, 'path_timeout': i.get('path_timeout', 60) * args.scale,
                 'seed': seed, 'native_limit': i.get('native_limit', 48), 'active_regions': active,
                 'twin': bool(i.get('twin', tier == 'thorough' and i.get('twin_ok', True))),
                 'symbolic': i.get('symbolic', True)}
-        return i, run_worker(spec, hard_timeout=spec['timeout'] * 2.0 + 120)
+        r = run_worker(spec, hard_timeout=spec['timeout'] * 2.0 + 120)
+        if r.get('status') == 'vacuous' and any(v in active for v in i.get('vacuous_if', ())):
+            # the whole input domain of this instance lies inside an excluded known-finding region: nothing to decide now;
+            # it becomes a live check again as soon as the finding's witness stops failing
+            r['status'] = 'excluded'
+        return i, r
 
     with concurrent.futures.ThreadPoolExecutor(max_workers=args.jobs) as ex:
         for i, r in ex.map(job, insts):
@@ -253,6 +261,7 @@ def main():
         'confirmed': len(by.get('confirmed', [])),
         'refuted': len(by.get('violation', [])),
         'inconclusive': [i['name'] for i, _ in by.get('inconclusive', [])],
+        'excluded_by_known_finding': [i['name'] for i, _ in by.get('excluded', [])],
         'errors': [{'instance': i['name'], 'status': r['status'], 'error': r.get('error')} for i, r in
                    by.get('error', []) + by.get('engine_mismatch', []) + by.get('vacuous', [])],
         'paths_reaching_final_comparison': sum(int(r.get('reached') or 0) for _, r in results),
